@@ -76,6 +76,16 @@ pub fn run(em: &mut Emitter, rng: &mut Rng, thorough: bool) {
             tree_case(em, mode, &Dyn::Wrapped(2, Box::new(leaf.clone())));
         }
     }
+    // octet strings decoded from segmented BER whose flattened and stored lengths straddle a length-octet threshold
+    for n in (120usize..=130).chain(250..=258) {
+        let bytes: Vec<u8> = (0..n).map(|i| i as u8).collect(); let k = n / 2;
+        for o in [crate::c16::Os::Cons(false, vec![crate::c16::Os::Prim(bytes.clone())]),
+                  crate::c16::Os::Cons(false, vec![crate::c16::Os::Prim(bytes[..k].to_vec()), crate::c16::Os::Prim(bytes[k..].to_vec())])] {
+            let mut t = Vec::new(); os_encode(&o, 0x04, &mut t);
+            let leaf = Dyn::OctStr(0, 4, 0, t);
+            for mode in [0u8, 2] { tree_case(em, mode, &leaf); tree_case(em, mode, &Dyn::Cons(0, 16, 0, Box::new(leaf.clone()))); }
+        }
+    }
     for k in 0..=13usize { for rep in 0..5u8 {
         let d = Dyn::Cons(0, 16, 1, Box::new(Dyn::Seq(rep, (0..k).map(|i| Dyn::Int(0, 2, 2, false, i as u128 * 50)).collect())));
         for mode in 0..3u8 { tree_case(em, mode, &d); }
